@@ -27,8 +27,11 @@ class Module(object):
         self.src = src
         self.lines = src.splitlines()
         self.tree = ast.parse(src, filename=path)
-        from . import alpha
-        self.alpha_mapped = alpha.canonicalise(self.tree, name)   # pure renamings of locals are undone (core/alpha.py)
+        from . import alpha, normal
+        # meaning-preserving surface forms are undone before any rule looks (core/normal.py, core/alpha.py)
+        self.normal_mapped = normal.canonicalise(self.tree, name, stage="pre")
+        self.alpha_mapped = alpha.canonicalise(self.tree, name)
+        self.normal_mapped += normal.canonicalise(self.tree, name, stage="post")
         for node in ast.walk(self.tree):
             for ch in ast.iter_child_nodes(node):
                 ch._parent = node
